@@ -129,6 +129,8 @@ class LogicBlock(SystemWideDevice, ModeDevice):
     def device_removed_from_mode(self, mode: Mode):
         """Unset internal state to prevent leakage."""
         super().device_removed_from_mode(mode)
+        # timeout and hit window timers must not fire on a block without state
+        self.delay.clear()
         self._state = None
 
     @property
